@@ -174,11 +174,15 @@ def check_probe(ctx, label, files):
     res, _ = verify_funs(todo, probes)
     for f, r in res:
         if r.startswith("probe-mismatch"):
-            ctx.cov["model_vs_impl_disagreements"] += 1
-            ctx.violation(label + "_tie", {"engine": "verify", "kind": "model-vs-implementation",
+            # the certificate is what the compiler's own simulation says (stack_effect = vmEffect is a [G] lemma): an
+            # executed depth that differs from it is the interpreter leaving the stack contract on this very program -
+            # a concrete input (D61: `launch` of a class without init left its result), not only a broken tie
+            ctx.cov["impl_vs_spec_failures"] += 1
+            ctx.violation(label + "_tie", {"engine": "verify", "kind": "implementation-vs-spec",
                                            "broken": "probe tie: executed (offset, depth, handlers) differs from the certificate (vmEffect vs vm/ops.rs)",
-                                           "what": r, "file": f["file"], "function": f["head"], "program": open(f["file"]).read()},
-                          no_input=True)
+                                           "what": "the interpreter's operand stack depth differs from the depth the compiler's simulation assigns to the same offset "
+                                                   "(offset:executed depth/handlers != certified depth/handlers): " + r,
+                                           "file": f["file"], "function": f["head"], "program": open(f["file"]).read()})
             return False
         if not r.startswith("ok"):
             report_bad(ctx, label + "_verifier", f, r)
@@ -304,7 +308,19 @@ def run(ctx):
     if os.path.isdir(corpus):
         cf = sorted(os.path.join(corpus, f) for f in os.listdir(corpus) if f.endswith(".lay"))
     fx = [f for f in dumps.fixture_files() if "/language/" in f and "native_stack_overvflow" not in f]
-    if not check_probe(ctx, "probe", cf + files[:ctx.n(300, 5000)] + fx[:ctx.n(150, 400)]):
+    # fixtures for the probe: round-robin over the fixture directories, so that the quick tier sees every language area
+    # (the first 150 in path order never reached launch/: D61 was found by the thorough tier only)
+    bydir = {}
+    for f in fx:
+        bydir.setdefault(os.path.dirname(f), []).append(f)
+    fxr = []
+    k = 0
+    while len(fxr) < len(fx):
+        for dname in sorted(bydir):
+            if k < len(bydir[dname]):
+                fxr.append(bydir[dname][k])
+        k += 1
+    if not check_probe(ctx, "probe", cf + files[:ctx.n(300, 5000)] + fxr[:ctx.n(260, len(fxr))]):
         return
     if not check_boundary(ctx):
         return
@@ -331,6 +347,10 @@ def replay(path):
     run1 = common.run_batch(["--probe --steps 300000 " + tmp])[0]
     print("run:", run1["status"])
     bad = bad or run1["status"].split(":")[0] in ("CRASH", "PANIC")
+    c = common.Ctx("C06", "quick", 0)
+    if not check_probe(c, "replay_probe", [tmp]):
+        print("probe: executed depths differ from the certificate, see", [v[0] for v in c.violations][:2])
+        bad = True
     for f, rep in res:
         print(f["head"], "=>", rep)
         bad = bad or not rep.startswith("ok")
